@@ -35,6 +35,9 @@ def main():
             import traceback
             pre_fail.append({'kind': 'translator', 'generator': g, 'what': f'symbolic execution of the current sources failed: {type(e).__name__}: {str(e)[:200]}',
                              'log_tail': traceback.format_exc()[-800:]})
+    from harness import symexec as _sx
+    if _sx.SELFCHECKS:
+        ctx.notes['translator_selfcheck'] = dict(_sx.SELFCHECKS)      # the translations, evaluated numerically at random points, reproduce the code
     gate = core.proof_gate(a.pid, thorough=(a.tier == 'thorough'))
     gate['failures'] = pre_fail + gate['failures']
     try:
